@@ -51,7 +51,7 @@ def main():
             print("     -", x["verdict"], x["name"], x["backend"], x["reason"] or "", (x["model"] or "")[:300].replace("\n", " ") if verbose else "")
         if verbose:
             slow = sorted(res, key=lambda x: -x["time"])[:5]
-            print("     slowest:", [(x["name"][-50:], x["time"], x["backend"]) for x in slow])
+            print("     slowest:", [(x["name"][-50:], x["time"], x["backend"], x.get("trail")) for x in slow])
             for i in r["info"]:
                 print("     assumptions:", i.get("assumptions"))
 
